@@ -199,6 +199,10 @@ def plan(ctx):
         z3.ForAll([tt_, yy_], z3.Select(prim_(tt_, yy_), 0) == 0, patterns=[prim_(tt_, yy_)])]
     p.lemmas = [lemma_forms_agree]
     p.oracles = ["native/oracle_C07.py"]
+    p.trusted = ["UnivariateSpline(t, y, s=0).antiderivative()(t) is a deterministic function prim(t, y) of the two arrays with "
+                 "prim(t, y)[0] == 0 (SciPy: the antiderivative is the integral from the first knot)",
+                 "in the _OTI set-up Kd[m] is the transpose of Km[m] (how every caller builds it)",
+                 "numpy.linalg.eigh / scipy.linalg.inv in the time-dependent implementation: assumed contracts as in C01"]
     p.not_decided = ["TDRedfieldRelaxationTensor.data[0] == 0 and data[-1] == static tensor in four-index form: shown for the "
                      "operator components Lambda_m(t) (the conversion to four-index form is the same function of them, C01)",
                      "uncoupled sites reproduce exp(-i w t - g(t)) up to the time-step error",
